@@ -240,8 +240,14 @@ check("C14",
       "startHeaderOk / headerGate). Explored on the real code: EVERY byte-granular prefix of the recorded traces of create and "
       "append sessions (all member-adding calls incl. writeall after earlier content, nested archives as members, tiny "
       "headers) plus dropped/reordered last blocks, each image opened by py7zr and by the independent reader: rejected, or "
-      "complete and correct (append: before or after). Partial: what a real OS persists is modelled as write prefixes; "
-      "appends on encoded-header bases are covered by exploration, not by a theorem.",
+      "complete and correct (append: before or after). append_crash_general / append_crash_verdict_encoded: the same for "
+      "a base in the DEFAULT (encoded) header mode - signature header, packed streams, packed header P, EncodedHeader "
+      "record R - for every decoder of the header chain: rejected by signature/record gate, or old record and untouched "
+      "prefix and then the packed header is still P, or decodes to the same header, or fails the record's folder CRC "
+      "(the gate added by the repair cfa832b), or collides under CRC-32; tied by ws.eapp / ws.eaops (encoded-mode append "
+      "sessions byte for byte, files and write sequences). Partial: what a real OS persists is modelled as write "
+      "prefixes; the encoded-mode theorem is about the file shape, the archive invariant of C08 is proved for raw "
+      "headers only.",
       "Lean 4 proofs over the session write-sequence model (case analysis of torn commit records, CRC burst theorem, archive invariant) + differential correspondence of write traces and open gates + exhaustive crash-prefix exploration",
       "DESIGN.md §4 C14, §9.11")
 check("C15",
